@@ -2,7 +2,7 @@
    Only statements, `exact`, `Check` pins and Print Assumptions live here. *)
 From PegV Require Import Utf8 Utf8Facts State Terminals TerminalsSpec TerminalsOk Syntax Fields
   FieldsFacts Literals LiteralsFacts Model Spec Sim Conform MemoEq MemoSpec Extracted WellFormed Termination TermModel MemoTerm GrammarEbnf.
-From PegV Require CleanFrame Local LocalConform.
+From PegV Require CleanFrame Local LocalConform UsualShapeExamples LocalExamples.
 
 (* side conditions on the decision points found in the current source *)
 Theorem C01_facts :
@@ -303,3 +303,14 @@ Theorem C01_clean_part_of_any_grammar :
         (s_parse Extracted.fcfg shk (Local.unmarkb true g) true fuel rule_name cs).
 Proof. exact LocalConform.clean_conforms. Qed.
 Print Assumptions C01_clean_part_of_any_grammar.
+
+(* the hypotheses are met by a grammar that HAS a @leftrec rule: in  @leftrec E = l:*E '+' n:N | n:N  the set
+   { N, Whitespace } is closed and unmarked, E is not in it, and N parses as in the unmarked grammar *)
+Theorem C01_clean_part_instance :
+  ((forall n, UsualShapeExamples.clean_sum n = true -> CleanFrame.rule_clean UsualShapeExamples.g_sum UsualShapeExamples.clean_sum n) /\
+   (forall n r, UsualShapeExamples.clean_sum n = true -> find_rule UsualShapeExamples.g_sum n = Some r ->
+                CleanFrame.eclean UsualShapeExamples.clean_sum (r_def r) = true) /\
+   UsualShapeExamples.clean_sum n_Whitespace = true /\ UsualShapeExamples.clean_sum UsualShapeExamples.nN = true /\
+   UsualShapeExamples.clean_sum UsualShapeExamples.nE = false).
+Proof. exact LocalExamples.sum_clean_set. Qed.
+Print Assumptions C01_clean_part_instance.
